@@ -70,6 +70,9 @@ class World:
         self.blocked = []       # ghost: ops whose recv found nothing owed
         self.sent_by_op = {}    # ghost: op index -> list of (sid, bytes)
         self.faults = []        # ghost: (op, sid, event kind, trace length) for every scripted failure raised
+        self.addr_peer = None   # optional: callable((host, port), sent bytes) -> reply, for worlds with several servers
+        self.refuse = set()     # remotes (host, port) whose connect() is refused
+        self.on_block = None    # exception name raised by a recv that finds nothing owed (default: the WouldBlock marker)
 
     def pop(self):
         if self.pos < len(self.script):
@@ -121,11 +124,14 @@ class FakeSocket:
 
     def connect(self, sockaddr):
         a = sockaddr[2] if isinstance(sockaddr, tuple) else -1
+        self.remote = (sockaddr[0], str(sockaddr[1])) if isinstance(sockaddr, tuple) else sockaddr
         self.w.call((6, self.sid, a))
+        if self.remote in self.w.refuse:
+            raise ConnectionRefusedError(111, "refused by the scripted world")
 
     def sendall(self, data):
         self.w.call((7, self.sid, bytes(data)))
-        r = self.w.reply_to(bytes(data))
+        r = self.w.addr_peer(getattr(self, "remote", None), bytes(data)) if self.w.addr_peer else self.w.reply_to(bytes(data))
         self.w.tags.append((self.sid, bytes(data), bytes(r)))
         self.w.sent_by_op.setdefault(self.w.current_op, []).append((self.sid, bytes(data)))
         self.avail += r
@@ -149,6 +155,8 @@ class FakeSocket:
             raise OSError(errno.EINTR, "interrupted")
         if not self.avail:
             self.w.blocked.append(self.w.current_op)
+            if self.w.on_block:
+                raise make_exc(TAGS[self.w.on_block])
             raise WouldBlock("recv would block: nothing owed by the peer")
         n = max(int(c), 1)
         out = bytes(self.avail[:n])
